@@ -359,9 +359,51 @@ def fam_ctor(res, s, v):
         res.ok(R2, 'constructor(%s): lower <- %s, upper <- %s' % (','.join(k), show(want[LO], names), show(want[HI], names)))
 
 
+def project_bounds(t):
+    """box(lo, hi).lower -> lo, box(lo, hi).upper -> hi"""
+    def f(x):
+        if x[0] == 'm' and x[2] in (LO, HI) and x[1][0] == 'ctor' and len(x[1][2]) == 2 and (x[1][1] or '').startswith(('range_t<', 'box_t<')):
+            return x[1][2][0] if x[2] == LO else x[1][2][1]
+        return x
+    return map_terms(t, f)
+
+
+def is_empty_box(t, v):
+    t = all_conv(t)
+    return (t[0] == 'g' and v.gtypes.get(t[1]) == 'EmptyTy') or (t[0] == 'ctor' and not t[2]) or \
+           (t[0] == 'ctor' and len(t[2]) == 1 and is_empty_box(t[2][0], v))
+
+
 def fam_intersection(res, s, v):
     names = s.names
     t = single_return(v)
+    if t is not None and t[0] == '?:':
+        # `test ? box(max, min) : empty`: the canonical empty box may replace the raw result only where that is empty
+        c, x, y = t[1], t[2], t[3]
+        keep = None
+        if x[0] == 'ctor' and len(x[2]) == 2 and is_empty_box(y, v):
+            keep, r = c, x
+        elif y[0] == 'ctor' and len(y[2]) == 2 and is_empty_box(x, v):
+            keep, r = ('u', '!', c), y
+        if keep is not None:
+            keep = project_bounds(keep)
+            lo, hi = r[2][0], r[2][1]
+            nonempty = ('u', '!', L(hi, lo))
+            opaque = lambda z: ('anyLessThan(%s, %s)' % (show(z[2][0], names), show(z[2][1], names))) if lt_atom(z) else None
+            impl = ('b', '||', ('u', '!', nonempty), keep)
+            fm = Formula(opaque=opaque, names=names)
+            fm.scan(impl)
+            if fm.bad:
+                res.und(R2, 'intersectionOf: emptiness test not recognised: %s' % ', '.join(fm.bad[:2]))
+                return
+            d = fm.compare(impl, ('lit', True))
+            if d is not None:
+                res.bad(R2, 'intersectionOf returns the canonical empty box although the intersection (max of lowers, min of uppers) '
+                            'is not empty: it keeps the result only when `%s`, i.e. when some axis has lower < upper strictly; boxes '
+                            'that share a single point, an edge or a face (lower == upper on every/that axis) lose their common '
+                            'points (%s)' % (show(keep, names)[:200], d), 'intersection-empty-test')
+                return
+            t = r
     if t is None or t[0] != 'ctor' or len(t[2]) != 2:
         res.und(R2, 'intersectionOf: body is not `return box(lo, hi)`')
         return
